@@ -342,6 +342,17 @@ def handle (j : Json) : Json :=
         let r := mfCall a.overwrite ms n o
         Json.mkObj [("out", ofOutCtx r.1), ("modified", r.2)]
     | _, _, _ => err "bad mf args"
+  | some "mfw" =>
+    -- `Sequence(MakeFilename(args), Write(outdir))` on one value: the names, then the path (seed round K)
+    match mfArgs? (getD j "args"), optStr? (getD j "name"), outCtx? (getD j "out"), str? (getD j "outdir") with
+    | some a, some n, some o, some d =>
+      match mfInit a with
+      | .error e => Json.mkObj [("e", excName e), ("phase", "init")]
+      | .ok ms =>
+        match mfWritePath a.overwrite ms n d o with
+        | .error e => ofExc e
+        | .ok (a, b, c, p) => Json.mkObj [("r", ofList Json.str [a, b, c, p])]
+    | _, _, _, _ => err "bad mfw args"
   | some "wmf" =>
     match str? (getD j "outdir"), outCtx? (getD j "out") with
     | some d, some o =>
